@@ -44,7 +44,10 @@ PBody(b) == IF b = Nil THEN Nil ELSE [id |-> b.id, setIdx |-> b.setIdx, chain |-
 PEntry(e) == [sigs |-> e.sigs, our |-> PBody(e.our), snap |-> e.snap, submitted |-> e.submitted,
               retry |-> e.retry, tx |-> e.tx]
 PVaa(v) == [d |-> v.d, id |-> v.id, setIdx |-> v.setIdx, sigs |-> v.sigs]
-POut(o) == IF o.kind = "vaa" THEN [kind |-> "vaa", vaa |-> PVaa(o.vaa)] ELSE o
+\* a request on the wire does not say which aggregation entry it was issued for
+POut(o) == IF o.kind = "vaa" THEN [kind |-> "vaa", vaa |-> PVaa(o.vaa)]
+           ELSE IF o.kind = "req" THEN [kind |-> "req", chain |-> o.chain, tx |-> o.tx]
+           ELSE o
 
 Matches(s) ==
     /\ "panic" \notin DOMAIN s
@@ -57,10 +60,12 @@ Matches(s) ==
     /\ \A d \in DOMAIN loop : loop[d] = s.loop[d]
     /\ {POut(o) : o \in out} = {LOut(s.out[i]) : i \in 1..Len(s.out)}
     /\ Cardinality(out) = Len(s.out)
+    /\ \A x \in {POut(o) : o \in out} :      \* same multiplicities (two entries may issue identical requests)
+          Cardinality({o \in out : POut(o) = x}) = Cardinality({i \in 1..Len(s.out) : LOut(s.out[i]) = x})
     /\ \A i \in 1..Len(s.out) : s.out[i].kind = "obs" => s.out[i].midok
 
 ResetState ==
-    /\ gs' = Nil /\ agg' = <<>> /\ db' = <<>> /\ loop' = <<>> /\ now' = 0
+    /\ gs' = Nil /\ agg' = <<>> /\ db' = <<>> /\ up' = TRUE /\ loop' = <<>> /\ now' = 0
     /\ out' = {} /\ learned' = {} /\ observed' = {}
 
 Signed(ln) == \E i \in 1..Len(ln.s.out) : ln.s.out[i].kind = "obs"
@@ -74,6 +79,7 @@ Apply(ln) ==
       [] ln.ev = "Loopback"     -> Loopback(ln.a.d)
       [] ln.ev = "InboundVAA"   -> InboundVAAChoice(LVaaIn(ln.a.w), DOMAIN ln.s.db # DOMAIN db)
       [] ln.ev = "Advance"      -> Advance(ln.a.k)
+      [] ln.ev = "StoreDown"    -> StoreDown
       [] ln.ev = "CleanupTick"  -> CleanupTick(LateSet \ DOMAIN ln.s.agg)
       [] OTHER                  -> FALSE       \* Panic / LoopbackMissing / Slow lines match nothing
 
